@@ -332,6 +332,7 @@ prop(
     jobs=[
         {"test": "TestC05", "checks": 1200, "timeout": 400, "thorough": {"checks": 12000, "shards": 12, "timeout": 1700}},
         {"test": "TestC05Identifier", "checks": 3000, "timeout": 120, "thorough": {"checks": 50000, "shards": 2, "timeout": 600}},
+        {"test": "TestC05IdentifierSweep", "rapid": False, "timeout": 300, "shards": 4, "thorough": {"shards": 4, "timeout": 600}},
         {"test": "TestC05Real", "rapid": False, "timeout": 400, "thorough": {"shards": 4, "timeout": 1700}},
         {"test": "TestC05Findings", "rapid": False, "timeout": 60},
     ],
